@@ -392,13 +392,21 @@ def SL.keys (cfg : Cfg K V) (s : SL K V) : Option (List K) :=
     | [] => none
     | l0 :: _ => fillSlice cfg.zeroK s.len l0
 
+/-- `vals[i] = e.val` along the level-0 chain (`none`: a node without value). -/
+def valuesOf (vals : List (K × V)) : List K → Option (List V)
+  | [] => some []
+  | n :: rest =>
+    match getVal vals n, valuesOf vals rest with
+    | some v, some vs => some (v :: vs)
+    | _, _ => none
+
 /-- `Values()`. -/
 def SL.values (cfg : Cfg K V) (s : SL K V) : Option (List V) :=
   if s.len == 0 then some []
   else match s.lv with
     | [] => none
     | l0 :: _ =>
-      match l0.mapM (getVal s.vals) with
+      match valuesOf s.vals l0 with
       | none => none
       | some vs => fillSlice cfg.zeroV s.len vs
 
